@@ -11,6 +11,7 @@ mod rt;
 mod sendloop;
 mod settings;
 mod tlsx;
+mod tunnelreq;
 mod transport;
 mod util;
 mod wdsched;
@@ -144,6 +145,7 @@ fn run_all(kind: &str, input: &str, outdir: &str, threads: usize, budget: Durati
                             "happy" => happy::run(&sc),
                             "tls" => tlsx::run(&sc),
                             "wdsched" => wdsched::run(&sc),
+                            "tunnelreq" => tunnelreq::run(&sc),
                             "charset" => {
                                 if util::gs(&sc, "kind") == "charset" {
                                     let thorough = std::env::var("VERIF_TIER").map(|t| t == "thorough").unwrap_or(false);
@@ -224,6 +226,7 @@ fn main() {
             let seed: u64 = arg(&args, "--seed").and_then(|s| s.parse().ok()).unwrap_or(1);
             let tier = arg(&args, "--tier").unwrap_or("quick".into());
             let scs: Vec<String> = match family.as_str() {
+                "tunnelreq" => tunnelreq::generate().into_iter().map(|v| v.to_string()).collect(),
                 "rt" => rt::generate(seed, &tier, false).into_iter().map(|v| v.to_string()).collect(),
                 "rt_release" => rt::generate(seed, &tier, true).into_iter().map(|v| v.to_string()).collect(),
                 "mpart" => mpart::generate(seed, &tier).into_iter().map(|v| v.to_string()).collect(),
